@@ -25,6 +25,13 @@ def witness_items(prop):
         if f.get("kind") != "finding" or "witness" not in f:
             continue
         w = f["witness"]
+        if "rich" in w:
+            import facto_rich as fr
+            st = [to_tuple(s) for s in w["rich"]]
+            el = fr.elaborate(st)
+            out.append((f, engine.Item("w" + f["id"], el.flat, text=fr.text(st), opts=w.get("opts"), entities=el.entities,
+                                       mems=el.mems)))
+            continue
         decls = [to_tuple(d) for d in w["decls"]]
         ents = None
         if w.get("entities"):
@@ -62,7 +69,8 @@ def op_histogram(progs):
 
 
 def run(tier, seed, t0, prop=PROP, n_quick=60, n_thorough=600, opts=None, gen=None, make_items=None,
-        files=None, props_file="Props/C01.v", rule=None, extra_cov=None, pre=None, witness_extra=None):
+        files=None, props_file="Props/C01.v", rule=None, extra_cov=None, pre=None, witness_extra=None,
+        reclassify=None):
     """generic driver: build, replay witnesses, generate items, run the validator, classify, report.
     make_items(seed, n) -> list of engine.Item (default: random scalar programs)"""
     rep = Report(prop, tier, seed, t0)
@@ -94,6 +102,8 @@ def run(tier, seed, t0, prop=PROP, n_quick=60, n_thorough=600, opts=None, gen=No
     allitems = [w for _, w in wit] + items
     cmd, logs = engine.check_items(prop, allitems, seed=seed)
     rep.checker_cmds.append(cmd)
+    if reclassify is not None:
+        reclassify(allitems)
     for f, w in wit:
         if w.status != "pass" or getattr(w, "c20_ok", None) is False or (witness_extra and witness_extra(w)):
             rep.known_finding(f["id"], f["what"])
@@ -109,7 +119,8 @@ def run(tier, seed, t0, prop=PROP, n_quick=60, n_thorough=600, opts=None, gen=No
         elif it.status == "violation":
             rep.obligations += 1
             found = bool(it.detail.get("failing_input")) or it.detail.get("kind", "").startswith("compile-")
-            rep.violation({"program": it.text, "decls": it.decls, "entities": it.entities, "options": it.opts, "detail": it.detail,
+            rep.violation({"program": it.text, "decls": it.decls, "entities": it.entities, "mems": getattr(it, "mems", None),
+                           "options": it.opts, "detail": it.detail,
                            "broken_obligation": "check_c01 (Valid/CheckC01.v) on the emitted blueprint",
                            "generator_seed": seed}, found)
     for s in sorted(set(rep.known)):
